@@ -458,6 +458,8 @@ def rand_graph(g, rng, n_ops=6, allow_unsupported=True, allow_emb=True,
       cands += ['fc', 'fc', 'fc']
     if r == 3:
       cands += (['bmm'] if allow_bmm_const else []) + ['bmm_act']
+    if r == 2 and allow_bmm_const:
+      cands += ['bmm']
     if r == 4:
       cands += ['conv', 'conv', 'dwconv', 'tconv', 'avgpool']
       if allow_unsupported:
@@ -826,7 +828,7 @@ SINGLE_OPS = {
     'CONV_2D': ['conv', 'conv_1x1'],
     'DEPTHWISE_CONV_2D': ['dwconv', 'dwconv_mult2'],
     'CONV_2D_TRANSPOSE': ['tconv', 'tconv_nobias'],
-    'BATCH_MATMUL': ['bmm_const', 'bmm_const_adj', 'bmm_act'],
+    'BATCH_MATMUL': ['bmm_const', 'bmm_const_adj', 'bmm_act', 'bmm_rank2', 'bmm_rank2_adj'],
     'EMBEDDING_LOOKUP': ['emb'],
     'AVERAGE_POOL_2D': ['avgpool'], 'RESHAPE': ['reshape'], 'SOFTMAX': ['softmax'], 'TANH': ['tanh'],
     'LOGISTIC': ['logistic'], 'GELU': ['gelu'], 'RSQRT': ['rsqrt'], 'TRANSPOSE': ['transpose'],
@@ -865,6 +867,9 @@ def single_op_model(rng, variant, odd=False):
     if v in ('bmm_const', 'bmm_const_adj'):
       x = g.inp((o(2, 1), 3, o(4, 5)))
       return [g.bmm(x, n_out=o(4, 3), adj_y=(v == 'bmm_const_adj'))]
+    if v in ('bmm_rank2', 'bmm_rank2_adj'):
+      x = g.inp((3, o(4, 5)))
+      return [g.bmm(x, n_out=o(4, 3), adj_y=(v == 'bmm_rank2_adj'))]
     if v == 'bmm_act':
       x = g.inp((2, 3, 4))
       y = g.inp((2, 5, 4))
@@ -907,3 +912,39 @@ def single_op_model(rng, variant, odd=False):
   if variant == 'rsqrt':
     sp.signatures[0]['positive_inputs'] = True
   return sp
+
+
+def t_fanout(rng, k=None):
+  """One float tensor read by k (3-5) operators of mixed types; returns (spec, [(selector, output name)])."""
+  k = k or int(rng.integers(3, 6))
+  b = B()
+  g = G(b, 'main', 'm/', rng)
+  x = g.inp((2, 6))
+  y = g.fc(x, 6) if rng.random() < 0.6 else x
+  consumers = []
+  outs = []
+  for i in range(k):
+    kind = str(rng.choice(['fc', 'fc', 'tanh', 'gelu', 'mul_const', 'softmax', 'reshape', 'relu']))
+    if kind == 'fc':
+      o, sel = g.fc(y, int(rng.choice([3, 4])), bias=bool(rng.random() < 0.5)), 'FULLY_CONNECTED'
+    elif kind == 'tanh':
+      o, sel = g.tanh(y), 'TANH'
+    elif kind == 'gelu':
+      o, sel = g.gelu(y), 'GELU'
+    elif kind == 'softmax':
+      o, sel = g.softmax(y), 'SOFTMAX'
+    elif kind == 'mul_const':
+      o, sel = g.mul(y, g.const('c', g.w((6,)))), 'MUL'
+    elif kind == 'reshape':
+      o, sel = g.reshape(y, [3, 4]), 'RESHAPE'
+    else:
+      o, sel = g.relu(y), None
+    outs.append(o)
+    if sel is not None:
+      consumers.append((sel, g.sg.tensors[o].name.decode()))
+  if y != x and rng.random() < 0.4:
+    outs.append(y)
+    g.classes.add('output_also_consumed')
+  g.classes.update(('multi_consumer', 'fanout'))
+  g.finish(outs, 'serving_default')
+  return _spec(b, [g], 'fanout'), consumers
